@@ -30,8 +30,28 @@ class NotInlinable(Exception):
     pass
 
 
+# The method and function names of the library at the pinned version: its API surface (public methods, and the private
+# names the tests or the rules use as operations).  A function whose name is NOT in this table is a helper introduced by
+# a later change, whatever it is called, and is expanded like a private helper.
+API_NAMES = frozenset("""_add _get_slice_string _process_sub_slice _repr_html_ _self_add _transfer _transfer_slice
+add_experiment apply array bake calculate_concentration_ratio check_well convert convert_from convert_from_storage
+convert_from_storage_to_standard_format convert_prefix_to_multiplier convert_to_storage copy create_container
+create_solution create_solution_from dataframe dilute end_stage enzyme fill_to filter_experiments generate_experiments
+get get_amount_remaining get_concentration get_container_flows get_dataframe get_factor get_human_readable_unit
+get_level_factory get_moles get_substance_used get_substances get_volume get_volumes has_liquid highlight_wells
+is_enzyme is_liquid is_solid liquid map_container map_experiments name parse_concentration parse_quantity parse_single
+parse_slice parse_tuple register_factor remove resolve_labels set shape size solid start_stage transfer uses
+visualize""".split())
+
+
 def _is_private(name):
-    return name.startswith('_') and not name.startswith('__') and name not in ANCHORS
+    """Eligible for expansion: a private helper that is not a rule anchor, or any function that is not part of the
+    API surface of the pinned version."""
+    if name.startswith('__'):
+        return False
+    if name in ANCHORS:
+        return False
+    return name.startswith('_') or name not in API_NAMES
 
 
 def _walk_no_defs(node):
@@ -173,6 +193,7 @@ class Inliner:
     # ------------------------------------------------------------------ statements
     def block(self, stmts, ctx):
         ctx = dict(ctx, gated=set(ctx.get('gated', ())))     # membership gates hold for the rest of this block only
+        stmts = self._sink_method_values(stmts, ctx)
         out = []
         for s in stmts:
             out.extend(self.stmt(s, ctx))
@@ -344,6 +365,59 @@ class Inliner:
             if res is not None:
                 return res[1]
         return e
+
+    # ------------------------------------------------------------------ method values
+    def _sink_method_values(self, stmts, ctx):
+        """`if a: f = x.m1 elif b: f = x.m2 else: raise ..` directly followed by the only use `.. f(args) ..`: the
+        statement with the call is moved into the arms, naming the method itself (exact: nothing lies in between)."""
+        out = list(stmts)
+        i = 0
+        while i + 1 < len(out):
+            a, b = out[i], out[i + 1]
+            i += 1
+            if not (isinstance(a, ast.If) and isinstance(b, (ast.Return, ast.Assign, ast.Expr, ast.AugAssign))):
+                continue
+            calls = [n for n in ast.walk(b) if isinstance(n, ast.Call) and isinstance(n.func, ast.Name)]
+            for c in calls:
+                f = c.func.id
+                if f in ctx['closures'] or f in self.by_name:
+                    continue
+                loads = [n for n in ast.walk(ctx['fn']) if isinstance(n, ast.Name) and n.id == f and isinstance(n.ctx, ast.Load)]
+                stores = [n for n in ast.walk(ctx['fn']) if isinstance(n, ast.Name) and n.id == f and
+                          isinstance(n.ctx, (ast.Store, ast.Del))]
+                if len(loads) != 1 or not stores:
+                    continue
+                arms = []
+
+                def collect(node):
+                    for body in (node.body, node.orelse):
+                        if not body:
+                            return False            # an arm that falls through without binding f
+                        last = body[-1]
+                        if isinstance(last, ast.Raise):
+                            continue
+                        if len(body) == 1 and isinstance(last, ast.If) and body is node.orelse:
+                            if not collect(last):
+                                return False
+                            continue
+                        if isinstance(last, ast.Assign) and len(last.targets) == 1 and isinstance(last.targets[0], ast.Name) \
+                                and last.targets[0].id == f and isinstance(last.value, (ast.Attribute, ast.Name)):
+                            arms.append((body, last))
+                            continue
+                        return False
+                    return True
+                if not collect(a) or len(arms) != len(stores):
+                    continue
+                for body, last in arms:
+                    moved = copy.deepcopy(b)
+                    for n in ast.walk(moved):
+                        if isinstance(n, ast.Call) and isinstance(n.func, ast.Name) and n.func.id == f:
+                            n.func = ast.copy_location(copy.deepcopy(last.value), n.func)
+                    body[-1] = moved
+                out.pop(i)
+                self.stats['sunk'] = self.stats.get('sunk', 0) + 1
+                break
+        return out
 
     # ------------------------------------------------------------------ dispatch tables
     def _note_table(self, s, ctx):
@@ -646,3 +720,50 @@ class Inliner:
 
 def expand_module(tree, other_sources=()):
     return Inliner(tree, other_sources).run()
+
+
+# ---------------------------------------------------------------------------------------------- canonical anchor names
+def canonical_names(trees):
+    """Two rule anchors are private names that no test pins: Container._transfer_slice (the slice branch of
+    Container.transfer) and PlateSlicer._transfer (what Plate.transfer delegates to).  If they were renamed, find them
+    by their role - the private method the public entry point delegates to - and give them their canonical name in the
+    parsed trees, so that every rule keeps its footing.  Returns {old name: canonical name}."""
+    renamed = {}
+    classes = {}
+    for t in trees:
+        for c in t.body:
+            if isinstance(c, ast.ClassDef):
+                classes[c.name] = c
+
+    def methods(cname):
+        return {m.name: m for m in classes[cname].body if isinstance(m, ast.FunctionDef)} if cname in classes else {}
+
+    def rename(cname, old, new, class_qualified_only):
+        for t in trees:
+            for n in ast.walk(t):
+                if isinstance(n, ast.Attribute) and n.attr == old:
+                    if not class_qualified_only or (isinstance(n.value, ast.Name) and n.value.id == cname):
+                        n.attr = new
+        methods(cname)[old].name = new
+        renamed[f"{cname}.{old}"] = f"{cname}.{new}"
+
+    cm = methods('Container')
+    if cm and '_transfer_slice' not in cm and 'transfer' in cm:
+        cands = set()
+        for n in ast.walk(cm['transfer']):
+            if isinstance(n, ast.Attribute) and n.attr in cm and n.attr.startswith('_') and not n.attr.startswith('__') \
+                    and n.attr not in ('_transfer', '_add', '_self_add'):
+                cands.add(n.attr)
+        if len(cands) == 1:
+            rename('Container', cands.pop(), '_transfer_slice', False)
+    pm = methods('PlateSlicer')
+    plm = methods('Plate')
+    if pm and '_transfer' not in pm and 'transfer' in plm:
+        cands = set()
+        for n in ast.walk(plm['transfer']):
+            if isinstance(n, ast.Attribute) and isinstance(n.value, ast.Name) and n.value.id == 'PlateSlicer' and \
+                    n.attr in pm and n.attr.startswith('_') and not n.attr.startswith('__'):
+                cands.add(n.attr)
+        if len(cands) == 1:
+            rename('PlateSlicer', cands.pop(), '_transfer', True)
+    return renamed
